@@ -1,6 +1,7 @@
 package main
 
 import (
+	"os"
 	"fmt"
 	"go/types"
 	"math/big"
@@ -466,6 +467,12 @@ func checkReadProfilePropagation(p *Program, r *Report) {
 		if o.Kind != "return" {
 			good, why = false, "ReadProfile not extractable: "+o.Why
 			continue
+		}
+		if os.Getenv("PRISMCHECK_TRACE") == "c16row" {
+			fmt.Fprintln(os.Stderr, "OUT", o.Kind, valKey(o.Ret))
+			for _, c := range o.St.conds {
+				fmt.Fprintln(os.Stderr, "   cond", c.Key())
+			}
 		}
 		tp, _ := o.Ret.(Tuple)
 		if len(tp) != 2 {
